@@ -153,6 +153,14 @@ def check(run):
             for p in problems:
                 run.violation(f"{'build_root_metadata' if c['fn'] == 'root' else 'build_delegating_metadata'}: {p}",
                               {"kind": "builder", "case": c, "given": repr(given), "built": repr(md)})
+        if md is not None:
+            # the caller goes on to edit what it got back (drafting): this must never leak into later calls
+            try:
+                if isinstance(md.get("delegations"), dict):
+                    md["delegations"]["x-poison-%d" % run.evaluations] = {"pubkeys": ["ab" * 32], "threshold": 1}
+                md["x-poison"] = True
+            except Exception:  # noqa: BLE001
+                pass
         if any(v not in ("default",) for k, v in c.items() if k not in ("fn", "type")):
             run._distinct.add(hashlib.sha256(json.dumps(c, sort_keys=True).encode()).hexdigest()[:16])
         run.traces_validated += 1
